@@ -24,7 +24,7 @@ fn main() {
         let res = util::guarded(|| match pid.as_str() {
             "C01" => c01::run(&case),
             "C05" => c05::run(&case),
-            "C07" => c07::run(&case),
+            "C07" | "C18" => c07::run(&case),
             "C08" => c07::run08(&case),
             "C09" => c09::run(&case),
             "C16" => c16::run(&case),
